@@ -2,10 +2,18 @@
   C07/C08 (lexer half, tokens), part 3: for every shape of token lexeme, the rule of
   `Generated.lexState0` that wins on `lexeme ++ rest`.
 
-  * `word_firstMatch`: identifier-shaped lexemes (keywords and `ID`);
-  * `notIn_firstMatch`, `elif_firstMatch`: the two-word tokens, any inner white space;
+  Every lemma identifies its rule BY NAME (`ruleNamed name R0 = some r`, plus the expected shape
+  of `r.re`) and takes as hypothesis a decidable check over the rules that precede it in the
+  actual table (`(rulesBefore name R0).all ok = true`).  Both are discharged in
+  `Proofs/TokenStep.lean` by `decide +kernel` on the generated table; nothing here depends on
+  the position of a rule.
+
+  * `kw_firstMatch`, `id_firstMatch`: identifier-shaped lexemes (keywords and `ID`); the rules
+    before them are classified by `wordPreOk` (cannot start with an identifier character / a
+    keyword rule of another word / a two-word rule that cannot apply);
+  * `spaced_firstMatch`: the two-word tokens, any inner white space;
   * `int_firstMatch`, `float_firstMatch` (Unicode `\d` lexemes), `str_firstMatch`;
-  * `fixed_firstMatch`: a rule none of whose predecessors can start with the first character.
+  * `fixed1`, `fixed2`, `op1_firstMatch`: punctuation and operators.
 -/
 import Pyab.Proofs.TokenLex
 namespace Pyab.TokenLex
@@ -32,9 +40,6 @@ theorem m_set_hit (t : CharTables) (bound : Nat) {items : List SetItem} {x : Cha
   rw [if_pos h]
 
 /-! ### 7. identifier-shaped lexemes: keywords and `ID` -/
-
-theorem idChars_punct_blocked_all :
-    idChars.all (fun c => punct.all (fun r => !firstOk T r.re c)) = true := by decide +kernel
 
 theorem idClass (bound : Nat) :
     ClassLike isIdChar (fun p' n' s' k' => m T bound (.set idItems false) p' n' s' k') :=
@@ -64,135 +69,173 @@ theorem id_match {c : Char} {cs rest : List Char} (hc : isIdStart c = true)
   intro q
   simp [Nat.add_comm]
 
-/-- the rule that wins on an identifier-shaped lexeme -/
-def wordRule (lexeme : List Char) : LexRule :=
-  if lexeme = wIn then kwRule "KW_IN" wIn
-  else if lexeme = wNot then kwRule "KW_NOT" wNot
-  else if lexeme = wDef then kwRule "KW_DEF" wDef
-  else if lexeme = wSalt then kwRule "KW_SALT" wSalt
-  else if lexeme = wSplitters then kwRule "KW_SPLITTERS" wSplitters
-  else if lexeme = wIf then kwRule "KW_IF" wIf
-  else if lexeme = wElse then kwRule "KW_ELSE" wElse
-  else if lexeme = wWeighted then kwRule "KW_WEIGHTED" wWeighted
-  else if lexeme = wReturn then kwRule "KW_RETURN" wReturn
-  else if lexeme = wAnd then kwRule "KW_AND" wAnd
-  else if lexeme = wOr then kwRule "KW_OR" wOr
-  else idRule
+/-! #### classifying a rule that is tried before a word rule
 
-set_option hygiene false in
-local macro "kw_step " nm:term ", " w:term ", " h:ident : tactic => `(tactic| (
-  by_cases $h:ident : lexeme = $w
-  · subst $h:ident
-    rw [firstMatch_cons_some (r := kwRule $nm $w)
-      (kw_hit (by decide) (by decide +kernel) hs bound prev)]
-    rfl
-  rw [firstMatch_cons_none (r := kwRule $nm $w)
-    (kw_miss (by decide) (by decide +kernel) hid hs $h bound prev)]))
+  A rule `r` tried before the rule of an identifier-shaped lexeme is harmless when
+  * no character of `[a-zA-Z_]` can start a match of `r` (`idBlocked`), or
+  * `r` is a keyword rule `w\b` for a word `w` the lexeme is known to differ from, or
+  * `r` is a two-word rule `w1\s{min,}w2\b` that cannot apply: the lexeme differs from `w1` or
+    the text after the lexeme is known not to continue with `w2` (`excl`), and the lexeme is not
+    `w1w2` run together (only possible when `min = 0`).
+  The shape of `r` is recognised by re-building the candidate (`kwRe`, `spacedRe`) from the
+  letters read off `r` and comparing with `r` itself, so no parser needs to be trusted. -/
 
-/-- **word tokens**: an identifier-shaped lexeme followed by a non-word character is matched
-    by the keyword rule of that word, or else by `ID` — unless the text continues so that one
-    of the two-word rules applies (`not` + blanks + `in`, `else` + blanks + `if`) or the lexeme
-    is `elseif`, which `else\s*if\b` matches as `KW_ELIF` -/
-theorem word_firstMatch {lexeme rest : List Char} (hl : wordLike lexeme = true)
-    (hs : wordSep rest = true)
-    (hnot : ¬ (lexeme = wNot ∧ followsB 1 wIn rest = true))
-    (helse : ¬ (lexeme = wElse ∧ followsB 0 wIf rest = true))
-    (helif : lexeme ≠ wElse ++ wIf) {bound : Nat} (hb : lexeme.length ≤ bound)
-    (prev : Option Char) :
-    firstMatch T bound Generated.lexState0.rules prev (lexeme ++ rest) =
-      some (wordRule lexeme, lexeme.length, rest) := by
+def idStartCodes : List Nat := List.range' 65 26 ++ [95] ++ List.range' 97 26
+/-- `[a-zA-Z_]` as a list -/
+def idStartChars : List Char := idStartCodes.map Char.ofNat
+
+theorem isIdStart_mem {c : Char} (h : isIdStart c = true) : c ∈ idStartChars := by
+  have hc : c = Char.ofNat c.toNat := (Char.ofNat_toNat c).symm
+  rw [hc]
+  apply List.mem_map_of_mem
+  simp [isIdStart, idStartItems, SetItem.test] at h
+  simp only [idStartCodes, List.mem_append, List.mem_range'_1, List.mem_singleton]
+  omega
+
+/-- no character an identifier-shaped lexeme can start with (`[a-zA-Z_]`) can start a match
+    of `r` -/
+def idBlocked (r : Re) : Bool := idStartChars.all (fun c => !firstOk T r c)
+
+/-- the leading literal characters of a regex and what follows them -/
+def unLits : Re → List Nat × Re
+  | .seq (.lit c) r => ((c :: (unLits r).1), (unLits r).2)
+  | r => ([], r)
+
+/-- the word of `r`, should `r` be a keyword rule -/
+def kwCand (r : Re) : List Char := (unLits r).1.map Char.ofNat
+
+/-- `r` is the keyword rule of the (identifier-shaped, non-empty) word `w` -/
+def isKw (r : Re) (w : List Char) : Bool := r == kwRe w && !w.isEmpty && w.all isIdChar
+
+/-- first word, minimal number of blanks and second word, should `r` be a two-word rule -/
+def spacedCand (r : Re) : List Char × Nat × List Char :=
+  match (unLits r).2 with
+  | .seq (.rep min _ _ _) t => (kwCand r, min, kwCand t)
+  | _ => (kwCand r, 0, [])
+
+/-- `r` is the two-word rule `w1\s{min,}w2\b` -/
+def isSpaced (r : Re) (w1 : List Char) (min : Nat) (w2 : List Char) : Bool :=
+  r == spacedRe w1 min w2 && w1.all isIdChar && !w2.isEmpty && w2.all isIdChar
+
+/-- **the check for a rule tried before a word rule**; `notW w`: the lexeme is known to differ
+    from `w`; `excl = some (min, w2)`: the text after the lexeme is known not to continue with
+    `min` or more blanks and `w2` -/
+def wordPreOk (notW : List Char → Bool) (excl : Option (Nat × List Char)) (r : Re) : Bool :=
+  idBlocked r ||
+  (isKw r (kwCand r) && notW (kwCand r)) ||
+  (isSpaced r (spacedCand r).1 (spacedCand r).2.1 (spacedCand r).2.2 &&
+    (notW (spacedCand r).1 || excl == some ((spacedCand r).2.1, (spacedCand r).2.2)) &&
+    ((spacedCand r).2.1 != 0 || notW ((spacedCand r).1 ++ (spacedCand r).2.2)))
+
+theorem idBlocked_miss {r : Re} (h : idBlocked r = true) {c : Char} (hc : isIdStart c = true)
+    (bound : Nat) (prev : Option Char) (s : List Char) :
+    matchPrefix T bound r prev (c :: s) = none := by
+  have := List.all_eq_true.1 h c (isIdStart_mem hc)
+  exact matchPrefix_none_of_firstOk (by simpa using this)
+
+/-- a rule that passes `wordPreOk` does not match the lexeme -/
+theorem wordPre_miss {notW : List Char → Bool} {excl : Option (Nat × List Char)} {r : Re}
+    (h : wordPreOk notW excl r = true) {lexeme rest : List Char}
+    (hl : wordLike lexeme = true) (hs : wordSep rest = true)
+    (hnot : ∀ w, notW w = true → lexeme ≠ w)
+    (hex : ∀ min w2, excl = some (min, w2) → followsB min w2 rest = false)
+    (bound : Nat) (prev : Option Char) :
+    matchPrefix T bound r prev (lexeme ++ rest) = none := by
   have hid := wordLike_idChars hl
-  obtain ⟨c, cs, hlex⟩ : ∃ c cs, lexeme = c :: cs := by
+  simp only [wordPreOk, Bool.or_eq_true, Bool.and_eq_true] at h
+  rcases h with (h | ⟨hk, hn⟩) | ⟨⟨hsp, h1⟩, h2⟩
+  · cases lexeme with
+    | nil => simp [wordLike] at hl
+    | cons c cs =>
+      rw [List.cons_append]
+      simp only [wordLike, Bool.and_eq_true] at hl
+      exact idBlocked_miss h hl.1 bound prev _
+  · simp only [isKw, Bool.and_eq_true, beq_iff_eq, Bool.not_eq_true', List.isEmpty_eq_false_iff,
+      List.all_eq_true] at hk
+    obtain ⟨⟨hre, hne⟩, hall⟩ := hk
+    rw [hre]
+    exact kw_miss hne hall hid hs (hnot _ hn) bound prev
+  · simp only [isSpaced, Bool.and_eq_true, beq_iff_eq, Bool.not_eq_true',
+      List.isEmpty_eq_false_iff, List.all_eq_true] at hsp
+    obtain ⟨⟨⟨hre, hw1c⟩, hw2⟩, hw2c⟩ := hsp
+    rw [hre]
+    refine spaced_miss hw1c hw2 hw2c hid hs ?_ ?_ bound prev
+    · rintro ⟨hl1, hf⟩
+      rcases h1 with h1 | h1
+      · exact hnot _ h1 hl1
+      · rw [hex _ _ (beq_iff_eq.1 h1)] at hf
+        cases hf
+    · rintro ⟨hm, hl2⟩
+      rcases h2 with h2 | h2
+      · simp [hm] at h2
+      · exact hnot _ h2 hl2
+
+/-- **keyword tokens**: the word `w` followed by a non-word character is matched by the rule
+    `name` = `w\b`, provided every rule tried before it passes `wordPreOk` -/
+theorem kw_firstMatch {name : String} {w : List Char} {r : LexRule}
+    (hr : ruleNamed name R0 = some r) (hre : r.re = kwRe w) (hw : wordLike w = true)
+    {excl : Option (Nat × List Char)}
+    (hpre : (rulesBefore name R0).all (fun r' => wordPreOk (fun w' => w' != w) excl r'.re) = true)
+    {rest : List Char} (hs : wordSep rest = true)
+    (hex : ∀ min w2, excl = some (min, w2) → followsB min w2 rest = false)
+    (bound : Nat) (prev : Option Char) :
+    firstMatch T bound R0 prev (w ++ rest) = some (r, w.length, rest) := by
+  have hid := wordLike_idChars hw
+  have hne : w ≠ [] := by
+    intro h
+    rw [h] at hw
+    simp [wordLike] at hw
+  apply firstMatch_named hr
+  · intro r' hr'
+    exact wordPre_miss (rulesBefore_all hpre r' hr') hw hs
+      (fun w' hw' heq => by simp [heq] at hw') hex bound prev
+  · rw [hre]
+    exact kw_hit hne hid hs bound prev
+
+/-- **identifiers**: an identifier-shaped lexeme that is none of the words `notW` (the keywords
+    and `elseif`), followed by a non-word character, is matched by the rule `name` =
+    `[a-zA-Z_][a-zA-Z0-9_]*`, provided every rule tried before it passes `wordPreOk` -/
+theorem id_firstMatch {name : String} {r : LexRule} (hr : ruleNamed name R0 = some r)
+    (hre : r.re = idRule.re) {notW : List Char → Bool}
+    (hpre : (rulesBefore name R0).all (fun r' => wordPreOk notW none r'.re) = true)
+    {lexeme rest : List Char} (hl : wordLike lexeme = true) (hs : wordSep rest = true)
+    (hnot : ∀ w, notW w = true → lexeme ≠ w) {bound : Nat} (hb : lexeme.length ≤ bound)
+    (prev : Option Char) :
+    firstMatch T bound R0 prev (lexeme ++ rest) = some (r, lexeme.length, rest) := by
+  apply firstMatch_named hr
+  · intro r' hr'
+    exact wordPre_miss (rulesBefore_all hpre r' hr') hl hs hnot
+      (fun _ _ h => by cases h) bound prev
+  · rw [hre]
     cases lexeme with
     | nil => simp [wordLike] at hl
-    | cons c cs => exact ⟨c, cs, rfl⟩
-  have hp : ∀ r ∈ punct, matchPrefix T bound r.re prev (lexeme ++ rest) = none := by
-    rw [hlex, List.cons_append]
-    exact blocked_of_list idChars_punct_blocked_all
-      (isIdChar_mem (hid c (by rw [hlex]; exact List.mem_cons_self))) bound prev _
-  rw [rules0_tok, firstMatch_append_none hp]
-  kw_step "KW_IN", wIn, h1
-  rw [firstMatch_cons_none (r := notInRule)
-    (spaced_miss (w1 := wNot) (w2 := wIn) (min := 1) (by decide +kernel) (by decide)
-      (by decide +kernel) hid hs hnot (fun h => absurd h.1 (by decide)) bound prev)]
-  kw_step "KW_NOT", wNot, h2
-  kw_step "KW_DEF", wDef, h3
-  kw_step "KW_SALT", wSalt, h4
-  kw_step "KW_SPLITTERS", wSplitters, h5
-  kw_step "KW_IF", wIf, h6
-  rw [firstMatch_cons_none (r := elifRule)
-    (spaced_miss (w1 := wElse) (w2 := wIf) (min := 0) (by decide +kernel) (by decide)
-      (by decide +kernel) hid hs helse (fun h => helif h.2) bound prev)]
-  kw_step "KW_ELSE", wElse, h7
-  kw_step "KW_WEIGHTED", wWeighted, h8
-  kw_step "KW_RETURN", wReturn, h9
-  kw_step "KW_AND", wAnd, h10
-  kw_step "KW_OR", wOr, h11
-  subst hlex
-  simp only [wordLike, Bool.and_eq_true, List.all_eq_true] at hl
-  rw [List.cons_append, firstMatch_cons_some (r := idRule)
-    (id_match hl.1 hl.2 hs (by simp at hb; omega) prev)]
-  simp only [wordRule, if_neg h1, if_neg h2, if_neg h3, if_neg h4, if_neg h5, if_neg h6,
-    if_neg h7, if_neg h8, if_neg h9, if_neg h10, if_neg h11]
+    | cons c cs =>
+      simp only [wordLike, Bool.and_eq_true, List.all_eq_true] at hl
+      rw [List.cons_append]
+      exact id_match hl.1 hl.2 hs (by simp at hb; omega) prev
 
 /-! ### 8. the two-word tokens, any inner white space -/
 
-theorem n_blocked_all : (punct ++ [kwRule "KW_IN" wIn]).all (fun r => !firstOk T r.re 'n') = true := by
-  decide +kernel
-
-theorem e_blocked_all :
-    (punct ++ [kwRule "KW_IN" wIn, notInRule, kwRule "KW_NOT" wNot, kwRule "KW_DEF" wDef,
-      kwRule "KW_SALT" wSalt, kwRule "KW_SPLITTERS" wSplitters, kwRule "KW_IF" wIf]).all
-      (fun r => !firstOk T r.re 'e') = true := by
-  decide +kernel
-
-/-- `not`, one or more white-space characters, `in`, then no word character: `KW_NOT_IN` -/
-theorem notIn_firstMatch {ws rest : List Char} (hws : ∀ x ∈ ws, isSpace x = true)
-    (hne : ws ≠ []) (hs : wordSep rest = true) {bound : Nat} (hb : ws.length ≤ bound)
-    (prev : Option Char) :
-    firstMatch T bound Generated.lexState0.rules prev ((wNot ++ (ws ++ wIn)) ++ rest) =
-      some (notInRule, (wNot ++ (ws ++ wIn)).length, rest) := by
-  have hmin : 1 ≤ ws.length := by
-    cases ws with
-    | nil => exact absurd rfl hne
-    | cons _ _ => simp
-  have hassoc : (wNot ++ (ws ++ wIn)) ++ rest = wNot ++ (ws ++ (wIn ++ rest)) := by simp
-  have hrules : Generated.lexState0.rules = (punct ++ [kwRule "KW_IN" wIn]) ++
-      (notInRule :: (Generated.lexState0.rules.drop 15)) := rfl
-  rw [hassoc, hrules]
-  rw [show wNot ++ (ws ++ (wIn ++ rest)) = 'n' :: ('o' :: 't' :: (ws ++ (wIn ++ rest))) from rfl,
-    firstMatch_append_none (blocked_of_all n_blocked_all bound prev _),
-    show 'n' :: ('o' :: 't' :: (ws ++ (wIn ++ rest))) = wNot ++ (ws ++ (wIn ++ rest)) from rfl]
-  exact firstMatch_cons_some (r := notInRule)
-    (spaced_hit (w1 := wNot) (w2 := wIn) (by decide) (by decide +kernel) hws hmin hs (by omega) prev)
-
-/-- `else`, any white space (possibly none), `if`, then no word character: `KW_ELIF` -/
-theorem elif_firstMatch {ws rest : List Char} (hws : ∀ x ∈ ws, isSpace x = true)
+/-- `w1`, white space (`min` or more), `w2`, then no word character: the two-word rule `name`,
+    provided no rule tried before it can start with the first letter of `w1` (real order
+    dependence: the keyword rule of `w1` must come later) -/
+theorem spaced_firstMatch {name : String} {r : LexRule} {c : Char} {w1' w2 : List Char}
+    {min : Nat} (hr : ruleNamed name R0 = some r) (hre : r.re = spacedRe (c :: w1') min w2)
+    (hpre : (rulesBefore name R0).all (fun r' => !firstOk T r'.re c) = true)
+    (hw2 : w2 ≠ []) (hw2c : ∀ x ∈ w2, isIdChar x = true)
+    {ws rest : List Char} (hws : ∀ x ∈ ws, isSpace x = true) (hmin : min ≤ ws.length)
     (hs : wordSep rest = true) {bound : Nat} (hb : ws.length ≤ bound) (prev : Option Char) :
-    firstMatch T bound Generated.lexState0.rules prev ((wElse ++ (ws ++ wIf)) ++ rest) =
-      some (elifRule, (wElse ++ (ws ++ wIf)).length, rest) := by
-  have hassoc : (wElse ++ (ws ++ wIf)) ++ rest = wElse ++ (ws ++ (wIf ++ rest)) := by simp
-  have hrules : Generated.lexState0.rules =
-      (punct ++ [kwRule "KW_IN" wIn, notInRule, kwRule "KW_NOT" wNot, kwRule "KW_DEF" wDef,
-        kwRule "KW_SALT" wSalt, kwRule "KW_SPLITTERS" wSplitters, kwRule "KW_IF" wIf]) ++
-      (elifRule :: (Generated.lexState0.rules.drop 21)) := rfl
-  rw [hassoc, hrules]
-  rw [show wElse ++ (ws ++ (wIf ++ rest)) = 'e' :: ('l' :: 's' :: 'e' :: (ws ++ (wIf ++ rest)))
-      from rfl,
-    firstMatch_append_none (blocked_of_all e_blocked_all bound prev _),
-    show 'e' :: ('l' :: 's' :: 'e' :: (ws ++ (wIf ++ rest))) = wElse ++ (ws ++ (wIf ++ rest))
-      from rfl]
-  exact firstMatch_cons_some (r := elifRule)
-    (spaced_hit (w1 := wElse) (w2 := wIf) (by decide) (by decide +kernel) hws (Nat.zero_le _) hs
-      (by omega) prev)
+    firstMatch T bound R0 prev (((c :: w1') ++ (ws ++ w2)) ++ rest) =
+      some (r, ((c :: w1') ++ (ws ++ w2)).length, rest) := by
+  have hassoc : ((c :: w1') ++ (ws ++ w2)) ++ rest = (c :: w1') ++ (ws ++ (w2 ++ rest)) := by simp
+  rw [hassoc]
+  apply firstMatch_named hr
+  · rw [List.cons_append]
+    exact blocked_of_all hpre bound prev _
+  · rw [hre]
+    exact spaced_hit (w1 := c :: w1') (w2 := w2) hw2 hw2c hws hmin hs (by omega) prev
 
 /-! ### 9. numbers -/
-
-/-- the 27 rules before the number rules -/
-def preNum : List LexRule := Generated.lexState0.rules.take 27
-
-theorem rules0_num : Generated.lexState0.rules =
-    preNum ++ [floatRule, intRule, strRule, bcs, ic, nl, wsr] := rfl
 
 def itemBelow (N : Nat) : SetItem → Bool
   | .chr x => x < N
@@ -252,12 +295,7 @@ theorem firstBelow_sound (t : CharTables) {N : Nat} : ∀ (r : Re) (c : Char),
   | .look _ _, _, h, _ => by simp [firstBelow] at h
   | .unsupported _, _, h, _ => by simp [firstBelow] at h
 
-theorem preNum_below_all : preNum.all (fun r => firstBelow 128 r.re) = true := by decide +kernel
-
 def asciiDigits : List Char := (List.range' 48 10).map Char.ofNat
-
-theorem asciiDigits_blocked_all :
-    asciiDigits.all (fun c => preNum.all (fun r => !firstOk T r.re c)) = true := by decide +kernel
 
 theorem digitRanges_high : ∀ i, i < Generated.digitRanges.size →
     i = 0 ∨ 128 ≤ (Generated.digitRanges[i]!).1 := by decide +kernel
@@ -277,17 +315,22 @@ theorem digit_ascii {c : Char} (hc : isDigitC c = true) (hlt : c.toNat < 128) :
     omega
   · omega
 
-/-- no rule before the number rules can start with a (Unicode) decimal digit -/
-theorem digit_blocked {c : Char} (hc : isDigitC c = true) (bound : Nat) (prev : Option Char)
-    (s : List Char) : ∀ r ∈ preNum, matchPrefix T bound r.re prev (c :: s) = none := by
+/-- **the check for a rule tried before a number rule**: it cannot start with an ASCII digit,
+    and everything it can start with is ASCII (so it cannot start with a non-ASCII `\d` either) -/
+def digitBlocked (r : Re) : Bool := asciiDigits.all (fun c => !firstOk T r c) && firstBelow 128 r
+
+/-- a rule that passes `digitBlocked` cannot start with a (Unicode) decimal digit -/
+theorem digitBlocked_miss {r : Re} (h : digitBlocked r = true) {c : Char}
+    (hc : isDigitC c = true) (bound : Nat) (prev : Option Char) (s : List Char) :
+    matchPrefix T bound r prev (c :: s) = none := by
+  simp only [digitBlocked, Bool.and_eq_true] at h
+  apply matchPrefix_none_of_firstOk
   by_cases hlt : c.toNat < 128
-  · exact blocked_of_list asciiDigits_blocked_all (digit_ascii hc hlt) bound prev s
-  · intro r hr
-    apply matchPrefix_none_of_firstOk
-    cases hf : firstOk T r.re c with
+  · have := List.all_eq_true.1 h.1 c (digit_ascii hc hlt)
+    simpa using this
+  · cases hf : firstOk T r c with
     | false => rfl
-    | true =>
-      exact absurd (firstBelow_sound T r.re c (List.all_eq_true.1 preNum_below_all r hr) hf) hlt
+    | true => exact absurd (firstBelow_sound T r c h.2 hf) hlt
 
 def digitP : Char → Bool := fun x => (digitItems.any (·.test T x.toNat)) != false
 
@@ -376,46 +419,60 @@ theorem float_miss_int {ds rest : List Char} (hds : ∀ x ∈ ds, isDigitC x = t
     rw [List.cons_append]
     exact m_lit_miss T bound hne _ _ _ _
 
-/-- **integers**: a non-empty run of decimal digits, not followed by a digit or by `.` + digit -/
-theorem int_firstMatch {ds rest : List Char} (hne : ds ≠ []) (hds : ∀ x ∈ ds, isDigitC x = true)
+/-- **integers**: a non-empty run of decimal digits, not followed by a digit or by `.` + digit,
+    is matched by the rule `name` = `\d+`, provided every rule tried before it is the float rule
+    `\d+\.\d+` or cannot start with a digit -/
+theorem int_firstMatch {name : String} {r : LexRule} (hr : ruleNamed name R0 = some r)
+    (hre : r.re = digitsRe)
+    (hpre : (rulesBefore name R0).all
+      (fun r' => r'.re == floatRule.re || digitBlocked r'.re) = true)
+    {ds rest : List Char} (hne : ds ≠ []) (hds : ∀ x ∈ ds, isDigitC x = true)
     (hs : intSep rest = true) {bound : Nat} (hb : ds.length ≤ bound) (prev : Option Char) :
-    firstMatch T bound Generated.lexState0.rules prev (ds ++ rest) =
-      some (intRule, ds.length, rest) := by
+    firstMatch T bound R0 prev (ds ++ rest) = some (r, ds.length, rest) := by
   obtain ⟨c, cs, hlex⟩ : ∃ c cs, ds = c :: cs := by
     cases ds with
     | nil => exact absurd rfl hne
     | cons c cs => exact ⟨c, cs, rfl⟩
-  have hp : ∀ r ∈ preNum, matchPrefix T bound r.re prev (ds ++ rest) = none := by
-    rw [hlex, List.cons_append]
-    exact digit_blocked (hds c (by rw [hlex]; exact List.mem_cons_self)) bound prev _
-  rw [rules0_num, firstMatch_append_none hp,
-    firstMatch_cons_none (r := floatRule) (float_miss_int hds hs bound prev)]
-  apply firstMatch_cons_some (r := intRule)
-  unfold matchPrefix
-  exact digits_match hne hds (intSep_digitHead hs) (by omega) prev 0 _ _
-    (fun _ => by rw [Nat.zero_add])
+  apply firstMatch_named hr
+  · intro r' hr'
+    rcases Bool.or_eq_true _ _ ▸ rulesBefore_all hpre r' hr' with h | h
+    · rw [beq_iff_eq.1 h]
+      exact float_miss_int hds hs bound prev
+    · rw [hlex, List.cons_append]
+      exact digitBlocked_miss h (hds c (by rw [hlex]; exact List.mem_cons_self)) bound prev _
+  · rw [hre]
+    unfold matchPrefix
+    exact digits_match hne hds (intSep_digitHead hs) (by omega) prev 0 _ _
+      (fun _ => by rw [Nat.zero_add])
 
-/-- **floats**: digits, `.`, digits, not followed by a digit -/
-theorem float_firstMatch {ip fp rest : List Char} (hip : ip ≠ [])
+/-- **floats**: digits, `.`, digits, not followed by a digit, are matched by the rule `name` =
+    `\d+\.\d+`, provided no rule tried before it can start with a digit (real order dependence:
+    the integer rule `\d+` must come later) -/
+theorem float_firstMatch {name : String} {r : LexRule} (hr : ruleNamed name R0 = some r)
+    (hre : r.re = floatRule.re)
+    (hpre : (rulesBefore name R0).all (fun r' => digitBlocked r'.re) = true)
+    {ip fp rest : List Char} (hip : ip ≠ [])
     (hipd : ∀ x ∈ ip, isDigitC x = true) (hfp : fp ≠ []) (hfpd : ∀ x ∈ fp, isDigitC x = true)
     (hs : digitSep rest = true) {bound : Nat} (hb : (ip ++ '.' :: fp).length ≤ bound)
     (prev : Option Char) :
-    firstMatch T bound Generated.lexState0.rules prev ((ip ++ '.' :: fp) ++ rest) =
-      some (floatRule, (ip ++ '.' :: fp).length, rest) := by
+    firstMatch T bound R0 prev ((ip ++ '.' :: fp) ++ rest) =
+      some (r, (ip ++ '.' :: fp).length, rest) := by
   obtain ⟨c, cs, hlex⟩ : ∃ c cs, ip = c :: cs := by
     cases ip with
     | nil => exact absurd rfl hip
     | cons c cs => exact ⟨c, cs, rfl⟩
   have hassoc : (ip ++ '.' :: fp) ++ rest = ip ++ ('.' :: (fp ++ rest)) := by simp
-  have hp : ∀ r ∈ preNum, matchPrefix T bound r.re prev (ip ++ ('.' :: (fp ++ rest))) = none := by
-    rw [hlex, List.cons_append]
-    exact digit_blocked (hipd c (by rw [hlex]; exact List.mem_cons_self)) bound prev _
   have hlen : (ip ++ '.' :: fp).length = ip.length + 1 + fp.length := by
     simp only [List.length_append, List.length_cons]
     omega
   rw [hlen] at hb
-  rw [hassoc, rules0_num, firstMatch_append_none hp]
-  apply firstMatch_cons_some (r := floatRule)
+  rw [hassoc]
+  apply firstMatch_named hr
+  · intro r' hr'
+    rw [hlex, List.cons_append]
+    exact digitBlocked_miss (rulesBefore_all hpre r' hr')
+      (hipd c (by rw [hlex]; exact List.mem_cons_self)) bound prev _
+  rw [hre]
   unfold matchPrefix
   rw [show floatRule.re = .seq digitsRe (.seq (.lit 46) digitsRe) from rfl, m_seq_eq]
   have hdh : digitHead ('.' :: (fp ++ rest)) = false := by
@@ -429,14 +486,6 @@ theorem float_firstMatch {ip fp rest : List Char} (hip : ip ≠ [])
   simp only [Nat.zero_add]
 
 /-! ### 10. strings -/
-
-/-- the 29 rules before `STRING_LITERAL` -/
-def preStr : List LexRule := Generated.lexState0.rules.take 29
-
-theorem rules0_str : Generated.lexState0.rules = preStr ++ [strRule, bcs, ic, nl, wsr] := rfl
-
-theorem dquote_blocked_all : preStr.all (fun r => !firstOk T r.re '"') = true := by decide +kernel
-theorem squote_blocked_all : preStr.all (fun r => !firstOk T r.re '\'') = true := by decide +kernel
 
 /-- `q.*?q` on `q body q rest`, the body without `q` and without a line break: the match ends at
     the first closing quote -/
@@ -461,23 +510,33 @@ theorem quoted_hit {q : Char} {code : Nat} (hq : q.toNat = code) {body rest : Li
     rw [m_lit_hit' T bound hq]
 
 /-- **strings**: an opening quote, a body without that quote and without line breaks, the
-    closing quote — whatever follows -/
-theorem str_firstMatch {q : Char} (hq : q = '"' ∨ q = '\'') {body rest : List Char}
+    closing quote — whatever follows — are matched by the rule `name` = `".*?"|'.*?'`, provided
+    no rule tried before it can start with a quote -/
+theorem str_firstMatch {name : String} {r : LexRule} (hr : ruleNamed name R0 = some r)
+    (hre : r.re = strRule.re)
+    (hpre : (rulesBefore name R0).all
+      (fun r' => !firstOk T r'.re '"' && !firstOk T r'.re '\'') = true)
+    {q : Char} (hq : q = '"' ∨ q = '\'') {body rest : List Char}
     (hbq : ∀ x ∈ body, x ≠ q) (hbn : ∀ x ∈ body, x ≠ '\n') {bound : Nat}
     (hb : body.length ≤ bound) (prev : Option Char) :
-    firstMatch T bound Generated.lexState0.rules prev (q :: (body ++ q :: rest)) =
-      some (strRule, body.length + 2, rest) := by
-  rw [rules0_str]
+    firstMatch T bound R0 prev (q :: (body ++ q :: rest)) = some (r, body.length + 2, rest) := by
+  have hpre' : ∀ r' ∈ rulesBefore name R0,
+      firstOk T r'.re '"' = false ∧ firstOk T r'.re '\'' = false := by
+    intro r' hr'
+    have := rulesBefore_all hpre r' hr'
+    simpa using this
   rcases hq with rfl | rfl
-  · rw [firstMatch_append_none (blocked_of_all dquote_blocked_all bound prev _)]
-    apply firstMatch_cons_some (r := strRule)
+  · apply firstMatch_named hr
+      (fun r' hr' => matchPrefix_none_of_firstOk (hpre' r' hr').1)
+    rw [hre]
     unfold matchPrefix
     rw [show strRule.re = .alt (quotedRe 34) (quotedRe 39) from rfl, m_alt_eq,
       quoted_hit (q := '"') (by decide) hbq hbn hb]
     simp [Option.orElse]
     omega
-  · rw [firstMatch_append_none (blocked_of_all squote_blocked_all bound prev _)]
-    apply firstMatch_cons_some (r := strRule)
+  · apply firstMatch_named hr
+      (fun r' hr' => matchPrefix_none_of_firstOk (hpre' r' hr').2)
+    rw [hre]
     unfold matchPrefix
     rw [show strRule.re = .alt (quotedRe 34) (quotedRe 39) from rfl, m_alt_eq]
     have hmiss : m T bound (quotedRe 34) prev 0 ('\'' :: (body ++ '\'' :: rest))
@@ -491,26 +550,60 @@ theorem str_firstMatch {q : Char} (hq : q = '"' ∨ q = '\'') {body rest : List 
 
 /-! ### 11. punctuation and operators -/
 
-theorem split_at {α} : ∀ {l : List α} {i : Nat} {r : α}, l[i]? = some r →
-    l = l.take i ++ r :: l.drop (i + 1)
-  | [], _, _, h => by simp at h
-  | x :: l, 0, r, h => by
-    simp only [List.getElem?_cons_zero, Option.some.injEq] at h
-    subst h
-    rfl
-  | x :: l, i + 1, r, h => by
-    simp only [List.getElem?_cons_succ] at h
-    have := split_at h
-    simp only [List.take_succ_cons, List.drop_succ_cons, List.cons_append]
-    rw [← this]
+/-- a one-character rule wins at its character when no rule tried before it can start with it -/
+theorem fixed1 {name : String} {r : LexRule} {c : Char} (hr : ruleNamed name R0 = some r)
+    (hre : r.re = .lit c.toNat)
+    (hpre : (rulesBefore name R0).all (fun r' => !firstOk T r'.re c) = true)
+    (rest : List Char) (bound : Nat) (prev : Option Char) :
+    firstMatch T bound R0 prev ([c] ++ rest) = some (r, [c].length, rest) := by
+  apply firstMatch_named hr (blocked_of_all hpre bound prev rest)
+  unfold matchPrefix
+  rw [hre, m_lit_hit]
+  rfl
 
-/-- rule number `i` wins when it matches and none of its predecessors matches -/
-theorem fixed_firstMatch (i : Nat) {r : LexRule} {s rest : List Char} {n bound : Nat}
-    {prev : Option Char} (hr : Generated.lexState0.rules[i]? = some r)
-    (hpre : ∀ r' ∈ Generated.lexState0.rules.take i, matchPrefix T bound r'.re prev s = none)
-    (hm : matchPrefix T bound r.re prev s = some (n, rest)) :
-    firstMatch T bound Generated.lexState0.rules prev s = some (r, n, rest) := by
-  rw [split_at hr, firstMatch_append_none hpre]
-  exact firstMatch_cons_some hm
+/-- a two-character rule wins at its characters when no rule tried before it can start with the
+    first one (real order dependence: `>` / `<` must come after `>=` / `<=`) -/
+theorem fixed2 {name : String} {r : LexRule} {c d : Char} (hr : ruleNamed name R0 = some r)
+    (hre : r.re = .seq (.lit c.toNat) (.lit d.toNat))
+    (hpre : (rulesBefore name R0).all (fun r' => !firstOk T r'.re c) = true)
+    (rest : List Char) (bound : Nat) (prev : Option Char) :
+    firstMatch T bound R0 prev ([c, d] ++ rest) = some (r, [c, d].length, rest) := by
+  apply firstMatch_named hr (blocked_of_all hpre bound prev (d :: rest))
+  unfold matchPrefix
+  rw [hre, m_seq_eq, m_lit_hit, m_lit_hit]
+  rfl
+
+/-- `c=` does not match `c` followed by something else than `=` -/
+theorem op2_miss {c : Char} {rest : List Char} (h : (rest.head? != some '=') = true)
+    (bound : Nat) (prev : Option Char) :
+    matchPrefix T bound (.seq (.lit c.toNat) (.lit 61)) prev (c :: rest) = none := by
+  unfold matchPrefix
+  rw [m_seq_eq, m_lit_hit]
+  cases rest with
+  | nil => exact m_lit_nil _ _ _ _ _ _
+  | cons x r =>
+    apply m_lit_miss
+    intro hx
+    have : x = '=' := by rw [← Char.ofNat_toNat x, hx]
+    subst this
+    simp at h
+
+/-- `>` / `<` not followed by `=`: the one-character rule wins when every rule tried before it
+    cannot start with that character or is the two-character rule `c=` -/
+theorem op1_firstMatch {name : String} {r : LexRule} {c : Char}
+    (hr : ruleNamed name R0 = some r) (hre : r.re = .lit c.toNat)
+    (hpre : (rulesBefore name R0).all
+      (fun r' => !firstOk T r'.re c || r'.re == .seq (.lit c.toNat) (.lit 61)) = true)
+    {rest : List Char} (h : (rest.head? != some '=') = true) (bound : Nat) (prev : Option Char) :
+    firstMatch T bound R0 prev ([c] ++ rest) = some (r, 1, rest) := by
+  apply firstMatch_named hr
+  · intro r' hr'
+    rcases Bool.or_eq_true _ _ ▸ rulesBefore_all hpre r' hr' with h' | h'
+    · exact matchPrefix_none_of_firstOk (by simpa using h')
+    · rw [beq_iff_eq.1 h']
+      exact op2_miss h bound prev
+  · unfold matchPrefix
+    rw [hre]
+    exact m_lit_hit T bound c _ _ _ _
 
 end Pyab.TokenLex
